@@ -73,8 +73,10 @@ def nontrivial(case):
     return 'jump' in ks or 'function' in ks
 
 
-def make_case(model, limit=60, dbg=False, globs=None, twice=True, prerun=False):
+def make_case(model, limit=60, dbg=False, globs=None, twice=True, prerun=False, pre_model=None):
     c = {'kind': 'script', 'model': model, 'globals': json.loads(json.dumps(globs or G0)), 'limit': limit, 'dbg': dbg, 'prerun': prerun}
+    if pre_model is not None:
+        c['pre_model'] = pre_model
     return realrun.observe(c, twice=twice)
 
 
@@ -102,6 +104,15 @@ def run(ctx, replay=None):
     for k, cnt in ctx.pick(((4, 1500), (5, 800), (6, 500)), ((5, 40000), (6, 40000))):
         for _ in range(cnt):
             cases.append(make_case([alpha[rnd.randrange(len(alpha))] for _ in range(k)]))
+    # a model OBJECT that held another program before (edited in place by the host between the runs): same labels elsewhere
+    for _ in range(ctx.pick(1200, 20000)):
+        k = rnd.choice([3, 4, 5])
+        m1 = [alpha[rnd.randrange(len(alpha))] for _ in range(k)]
+        m2 = m1[:]
+        rnd.shuffle(m2)
+        if rnd.random() < 0.5:
+            m2.insert(rnd.randrange(len(m2) + 1), alpha[rnd.randrange(len(alpha))])
+        cases.append(make_case(m2, pre_model=m1))
     for _ in range(ctx.pick(1500, 30000)):
         m = gen_jump.rmodel(rnd, maxlen=rnd.choice([6, 14, 40]))
         cases.append(make_case(m, limit=rnd.choice([300, 300, 40, rnd.randint(1, 25)]), dbg=rnd.random() < 0.3,
